@@ -5,6 +5,7 @@ import (
 	"bytes"
 	"fmt"
 	"go/ast"
+	"go/constant"
 	"go/token"
 	"go/types"
 	"os"
@@ -103,6 +104,10 @@ func (c *Ctx) nodeAt(pos token.Pos) (idx ast.Node, innermost ast.Node) {
 // explicitPanics / typeAsserts / mustCalls enumerate P1, P2, P5 in the given function set.
 func (c *Ctx) ssaPanicSites(fns map[*ssa.Function]bool) []panicSite {
 	var out []panicSite
+	nDiv, nMap := 0, 0
+	defer func() {
+		c.R.Notes = append(c.R.Notes, sprintf("P7/P8 scan over %d functions: %d integer divisions/remainders and %d map assignments examined; those not by a non-zero constant / not into a locally made map are listed as sites", len(fns), nDiv, nMap))
+	}()
 	for fn := range fns {
 		if fn.Synthetic != "" && fn.Syntax() == nil {
 			continue
@@ -122,6 +127,22 @@ func (c *Ctx) ssaPanicSites(fns map[*ssa.Function]bool) []panicSite {
 					// go/ssa synthesises assertions for bound interface method values: require a source-level assertion
 					if ta := c.typeAssertAt(x.Pos()); ta != nil {
 						out = append(out, panicSite{"P2", fn, x.Pos(), c.exprString(ta), in})
+					}
+				case *ssa.BinOp:
+					// P7: integer division / remainder by a value that is not a non-zero constant
+					if (x.Op == token.QUO || x.Op == token.REM) && x.Pos().IsValid() {
+						if b, ok := x.X.Type().Underlying().(*types.Basic); ok && b.Info()&types.IsInteger != 0 {
+							nDiv++
+							if k, ok := x.Y.(*ssa.Const); !ok || k.Value == nil || constant.Sign(k.Value) == 0 {
+								out = append(out, panicSite{"P7", fn, x.Pos(), "integer " + x.Op.String() + " by " + divisorText(x.Y), in})
+							}
+						}
+					}
+				case *ssa.MapUpdate:
+					// P8: assignment into a map that is not made in this function
+					nMap++
+					if x.Pos().IsValid() && !locallyMade(x.Map, 0) {
+						out = append(out, panicSite{"P8", fn, x.Pos(), "map update of " + mapText(x.Map), in})
 					}
 				case *ssa.Call:
 					sc := x.Call.StaticCallee()
@@ -146,6 +167,69 @@ func (c *Ctx) ssaPanicSites(fns map[*ssa.Function]bool) []panicSite {
 	}
 	sort.Slice(out, func(i, j int) bool { return out[i].key() < out[j].key() })
 	return out
+}
+
+func divisorText(v ssa.Value) string {
+	switch x := v.(type) {
+	case *ssa.Const:
+		return "constant " + x.Value.String()
+	case *ssa.Parameter:
+		return "parameter " + x.Name()
+	case *ssa.Call:
+		return "result of " + walk.CalleeName(&x.Call)
+	}
+	return "a dynamic value"
+}
+
+func mapText(v ssa.Value) string {
+	switch x := unwrap0(v).(type) {
+	case *ssa.Parameter:
+		return "parameter " + x.Name()
+	case *ssa.UnOp:
+		if fa, ok := x.X.(*ssa.FieldAddr); ok {
+			return "field " + walk.FieldOf(fa.X.Type(), fa.Field).Name()
+		}
+		if g, ok := x.X.(*ssa.Global); ok {
+			return "global " + g.Name()
+		}
+	case *ssa.Call:
+		return "result of " + walk.CalleeName(&x.Call)
+	}
+	return "a value of unknown origin"
+}
+
+// locallyMade: the map is created in this function (make / literal), possibly through phis and local cells.
+func locallyMade(v ssa.Value, depth int) bool {
+	if depth > 6 {
+		return false
+	}
+	switch x := unwrap0(v).(type) {
+	case *ssa.MakeMap:
+		return true
+	case *ssa.Phi:
+		for _, e := range x.Edges {
+			if !locallyMade(e, depth+1) {
+				return false
+			}
+		}
+		return true
+	case *ssa.UnOp:
+		if al, ok := x.X.(*ssa.Alloc); ok && x.Op == token.MUL {
+			sts := storesTo(al)
+			if len(sts) == 0 {
+				return false
+			}
+			for _, st := range sts {
+				if !locallyMade(st.Val, depth+1) {
+					return false
+				}
+			}
+			return true
+		}
+	case *ssa.MakeInterface:
+		return locallyMade(x.X, depth+1)
+	}
+	return false
 }
 
 func (c *Ctx) typeAssertAt(pos token.Pos) *ast.TypeAssertExpr {
@@ -259,6 +343,10 @@ func panicKindText(k string) string {
 		return "index/slice whose bound the compiler cannot prove"
 	case "P5":
 		return "Must* call with a dynamic argument"
+	case "P7":
+		return "integer division by a value not known to be non-zero"
+	case "P8":
+		return "assignment into a map not created in this function (panics if it is nil)"
 	}
 	return k
 }
